@@ -17,6 +17,19 @@ type tapeRunner struct {
 	exe, prop, tier, known, dir string
 	n                           int
 	mu                          sync.Mutex
+	tries                       int // executions per candidate before it counts as "does not fail" (1 unless the tree under test proved nondeterministic)
+}
+
+// runFor executes a tape until it fails with the wanted class, at most tr.tries times.
+func (tr *tapeRunner) runFor(tape []uint64, class string) childResult {
+	var cr childResult
+	for i := 0; i < max(tr.tries, 1); i++ {
+		cr = tr.run(tape)
+		if cr.Infra != "" || classOf(tr.prop, cr) == class {
+			break
+		}
+	}
+	return cr
 }
 
 func (tr *tapeRunner) run(tape []uint64) childResult {
@@ -62,7 +75,7 @@ func (s *shrinker) tryBatch(cands [][]uint64) bool {
 		wg.Add(1)
 		go func(i int) {
 			defer wg.Done()
-			res[i] = s.tr.run(cands[i])
+			res[i] = s.tr.runFor(cands[i], s.class)
 		}(i)
 	}
 	wg.Wait()
@@ -185,21 +198,50 @@ func (s *shrinker) shrink() {
 	}
 }
 
+const (
+	noReproTries = 12 // fresh executions of a violating run before it is given up as not reproducible
+	replayTries  = 30 // executions of a replay file recorded as nondeterministic
+	exitNoRepro  = 4  // internal: the candidate did not reproduce; try the next one
+)
+
 // handleViolation confirms run `index` in a fresh process, minimises it and writes the replay
 // file.  It returns the replay path and exitViolation, or exitInfra if the violation does not
 // reproduce (which is a defect of the harness, never reported as a VIOLATION).
 func handleViolation(exe string, sc *scenario, tier string, seed, index uint64, class, replayDir, known string) (string, int) {
 	os.MkdirAll(replayDir, 0o755)
 	tr := &tapeRunner{exe: exe, prop: sc.Prop, tier: tier, known: known, dir: replayDir}
-	first := execChild(exe, []string{"exec", "-prop", sc.Prop, "-tier", tier, "-seed", fmt.Sprint(seed), "-i", fmt.Sprint(index), "-known", known}, 300*time.Second)
+	execFirst := func() childResult {
+		return execChild(exe, []string{"exec", "-prop", sc.Prop, "-tier", tier, "-seed", fmt.Sprint(seed), "-i", fmt.Sprint(index), "-known", known}, 300*time.Second)
+	}
+	first := execFirst()
 	if first.Infra != "" {
 		fmt.Fprintln(os.Stderr, "INFRASTRUCTURE ERROR while confirming run", index, ":", first.Infra)
 		return "", exitInfra
 	}
 	got := classOf(sc.Prop, first)
+	// The simulator's own determinism is established by the self-test on the unchanged tree.  If a
+	// run nevertheless does not repeat, the tree under test consults a source of nondeterminism
+	// the simulator does not own (the instrumenter already takes over map iteration order, locks,
+	// goroutine starts and scheduling).  Such a violation is still a violation of the real code;
+	// it is confirmed by repetition and every later step tolerates the flakiness.
+	tries := 1
+	for got == "" && tries < noReproTries {
+		first = execFirst()
+		if first.Infra != "" {
+			fmt.Fprintln(os.Stderr, "INFRASTRUCTURE ERROR while confirming run", index, ":", first.Infra)
+			return "", exitInfra
+		}
+		got = classOf(sc.Prop, first)
+		tries++
+	}
 	if got == "" {
-		fmt.Fprintf(os.Stderr, "INFRASTRUCTURE ERROR: run %d (class %s) did not reproduce in a fresh process — hidden nondeterminism in the harness\n", index, class)
-		return "", exitInfra
+		fmt.Fprintf(os.Stderr, "note: run %d (class %s) did not reproduce in %d fresh executions; not reported\n", index, class, tries)
+		return "", exitNoRepro
+	}
+	flaky := ""
+	if tries > 1 {
+		flaky = fmt.Sprintf("the violation first reproduced at the %d. fresh execution of the same run: the tree under test consults a source of nondeterminism that the simulator does not own; replay repeats the execution up to %d times", tries, replayTries)
+		tr.tries = 4
 	}
 	class = got
 	var tape []uint64
@@ -214,10 +256,10 @@ func handleViolation(exe string, sc *scenario, tier string, seed, index uint64, 
 			tape[i] = r.next()
 		}
 	}
-	rf := replayFile{Property: sc.Prop, Tier: tier, Seed: seed, Index: index}
+	rf := replayFile{Property: sc.Prop, Tier: tier, Seed: seed, Index: index, Flaky: flaky}
 	usable := false
 	if len(tape) > 0 {
-		chk := tr.run(tape)
+		chk := tr.runFor(tape, class)
 		if chk.Infra == "" && classOf(sc.Prop, chk) == class {
 			usable = true
 			sh := &shrinker{tr: tr, class: class, best: tape, bestRes: chk, maxExecs: 400, deadline: time.Now().Add(60 * time.Second)}
@@ -243,6 +285,9 @@ func handleViolation(exe string, sc *scenario, tier string, seed, index uint64, 
 	}
 	// the replay file itself must reproduce, in yet another fresh process
 	final := replayOnce(exe, path, known)
+	for i := 1; flaky != "" && i < replayTries && final.Infra == "" && classOf(sc.Prop, final) != class; i++ {
+		final = replayOnce(exe, path, known)
+	}
 	if final.Infra != "" || classOf(sc.Prop, final) != class {
 		fmt.Fprintf(os.Stderr, "INFRASTRUCTURE ERROR: minimised replay file %s does not reproduce class %s (got %q %s)\n", path, class, classOf(sc.Prop, final), final.Infra)
 		return "", exitInfra
@@ -304,6 +349,9 @@ func cmdReplay(args []string) int {
 	}
 	getScenario(rf.Property)
 	cr := replayOnce(exe, *file, *known)
+	for i := 1; rf.Flaky != "" && i < replayTries && cr.Infra == "" && classOf(rf.Property, cr) == ""; i++ {
+		cr = replayOnce(exe, *file, *known)
+	}
 	if cr.Infra != "" {
 		fmt.Fprintln(os.Stderr, "INFRASTRUCTURE ERROR:", cr.Infra)
 		return exitInfra
